@@ -546,6 +546,39 @@ def r15_shared_value(c, facts, rule='C02.R15'):
         c.ok(R, {'eval_declaration': 'the cached value is evaluated with the declaration\'s own annotations'})
 
 
+def returned_rec_annotations(c, facts, R, fn=None, T=None, idx=None):
+    """the annotations eval_recursion hands back with the reference are those of this use"""
+    if fn is None:
+        fn = c.anchor(R, 'oal_compiler::eval::eval_recursion')
+        annp = [i for i in range(1, fn.mir['argc'] + 1) if 'AnnRef' in fn.mir['locals'][i]['ty'] or 'Annotation' in fn.mir['locals'][i]['ty']]
+        T = taint_forward(fn, annp)
+        idx = MF.defs_index(fn)
+    # ... and the annotations handed back with the reference are those of this use: what is read at the use site
+    # (`required`, examples) must not depend on whether the schema is written in place or behind a name / a function
+    nret = 0
+    kept = True
+    for b, blk in fn.blocks():
+        for st in blk['stmts']:
+            if st['s'] == 'assign' and st['place']['l'] == 0 and not st['place']['proj'] and st['rv']['r'] == 'aggr' and st['rv'].get('variant') == 'Ok' and st['rv']['ops'] and 'l' in st['rv']['ops'][0]:
+                for kind, bi, x in idx.get(st['rv']['ops'][0]['l'], []):
+                    if kind == 'assign' and x['rv']['r'] == 'aggr' and x['rv'].get('ak') == 'tuple' and len(x['rv']['ops']) == 2:
+                        nret += 1
+                        a1 = x['rv']['ops'][1]
+                        if 'l' not in a1 or a1['l'] not in T:
+                            kept = False
+    c.floor(R, 'successful returns of eval_recursion', nret, 1)
+    if kept:
+        c.ok(R, {'eval_recursion': 'the returned annotations derive from the use-site annotations', 'returns': nret})
+    else:
+        c.bad(R, 'eval_recursion:returned-annotations-not-of-this-use', 'eval_recursion hands back annotations that do not derive from its `ann` parameter (an empty set): `\'n (rec x [x]) `required: true`` does not make n required, while the same schema behind `let w v = v;` does')
+
+
+
+def r15c_rec_use_site(c, facts, rule='C02.R15'):
+    R = c.rule(rule, 'USE-SITE: a `rec` written in place keeps the annotations of its use site, as the same schema behind a name or a function does')
+    returned_rec_annotations(c, facts, R)
+
+
 def r15b_shared_rec(c, facts, rule='C02.R15'):
     """the same for `rec`: its component is registered under a name that does not depend on the use, so its value must not
     either"""
@@ -574,6 +607,7 @@ def r15b_shared_rec(c, facts, rule='C02.R15'):
         c.bad(R, 'eval_recursion:shared-value-evaluated-with-use-site-annotations', 'eval_recursion evaluates the component it registers with the annotations of the use at hand: `\'a r `title: "A"`, \'b r `title: "B"`` for one `rec` gives one component titled "B"')
     else:
         c.ok(R, {'eval_recursion': 'the registered value does not depend on the use-site annotations'})
+    returned_rec_annotations(c, facts, R, fn, T, idx)
 
 
 def r16_range_key(c, facts, rule='C02.R16'):
